@@ -1,4 +1,290 @@
-/-! Pack: executable models (no Mathlib imports). -/
+import Solvor.Gen.Kernels
+import Solvor.Gen.PackConsts
+/-!
+Pack: executable models of `solvor/knapsack.py` (`solve_knapsack`) and `solvor/bin_pack.py`
+(`solve_bin_pack`), plus the Bool checkers and definitional optima of the spec side (C16).
+
+Every algorithmic part is written once over a record `Ops α` of scalar operations and instantiated
+at `Rat` (`ratOps`: what the theorems talk about, exact arithmetic) and at `Float` (`floatOps`: the
+same IEEE doubles CPython computes with; bit-level mirror used for R_trace).  The parts that exist
+only in floating point (the weight scaling of `_to_int_capacity` / `_scaled`, the `+ 1e-9` weight
+re-check) are `Float` functions.  No Mathlib imports.
+-/
 namespace Solvor.Pack
+open Solvor.Gen (Status)
+
+/-- Scalar operations the algorithms use (`lt`/`le`/`isZero` are the Python `<`, `<=`, `== 0`). -/
+structure Ops (α : Type) where
+  zero : α
+  add : α → α → α
+  sub : α → α → α
+  div : α → α → α
+  lt : α → α → Bool
+  le : α → α → Bool
+  isZero : α → Bool
+
+def ratOps : Ops Rat :=
+  ⟨0, (· + ·), (· - ·), (· / ·), fun a b => decide (a < b), fun a b => decide (a ≤ b), fun a => decide (a = 0)⟩
+
+def floatOps : Ops Float :=
+  ⟨0.0, (· + ·), (· - ·), (· / ·), fun a b => decide (a < b), fun a b => decide (a ≤ b), fun a => a == 0.0⟩
+
+/-! ## Knapsack: the integer-capacity DP of `solve_knapsack` -/
+
+section Knap
+variable {α : Type} (o : Ops α)
+
+/-- The inner loop `for w in range(int_capacity, w_i - 1, -1)` of one item `(wi, vi)`, updating
+`dp` **in place**, backwards.  `m` is the number of iterations left; the current `w` is
+`wi + (m - 1)`, so `dp[w - w_i]` is `dp[m - 1]`. -/
+def passLoop (wi : Nat) (vi : α) : Nat → Array α → Array Bool → Array α × Array Bool
+  | 0, dp, keep => (dp, keep)
+  | m + 1, dp, keep =>
+    let c := o.add (dp.getD m o.zero) vi
+    if o.lt (dp.getD (wi + m) o.zero) c then       -- `dp[w - w_i] + v_i > dp[w]`
+      passLoop wi vi m (dp.setIfInBounds (wi + m) c) (keep.setIfInBounds (wi + m) true)
+    else passLoop wi vi m dp keep
+
+/-- The outer loop `for i in range(n)`.  Items are `(int_weight, value)`; the `keep` rows are
+accumulated in reverse (row of the last item first), which is the order the backtrack reads them. -/
+def dpPasses (cap : Nat) : List (Nat × α) → Array α → List (Array Bool) → Array α × List (Array Bool)
+  | [], dp, keeps => (dp, keeps)
+  | (wi, vi) :: rest, dp, keeps =>
+    let r := passLoop o wi vi (cap + 1 - wi) dp (Array.replicate (cap + 1) false)
+    dpPasses cap rest r.1 (r.2 :: keeps)
+
+/-- `for i in range(n - 1, -1, -1): if keep[i][w]: selected.append(i); w -= int_weights[i]`
+followed by `selected.reverse()`.  Rows come last item first; the item's index is the number of
+rows after it. -/
+def backtrack : List (Array Bool × Nat) → Nat → List Nat → List Nat
+  | [], _, acc => acc
+  | (k, wi) :: rest, w, acc =>
+    if k.getD w false then backtrack rest (w - wi) (rest.length :: acc) else backtrack rest w acc
+
+/-- DP table and keep rows after all items. -/
+def dpRun (items : List (Nat × α)) (cap : Nat) : Array α × List (Array Bool) :=
+  dpPasses o cap items (Array.replicate (cap + 1) o.zero) []
+
+/-- The DP part of `solve_knapsack` on integer weights / capacity: selected indices (increasing)
+and `dp[int_capacity]`. -/
+def knapInt (items : List (Nat × α)) (cap : Nat) : List Nat × α :=
+  let r := dpRun o items cap
+  (backtrack (r.2.zip (items.reverse.map (·.1))) cap [], r.1.getD cap o.zero)
+
+/-! ### `_greedy_fallback` -/
+
+/-- sort key `values[i] / weights[i] if weights[i] > 0 else inf` (`none` = `inf`) -/
+def ratioKey (items : List (α × α)) (i : Nat) : Option α :=
+  match items[i]? with
+  | some (w, v) => if o.lt o.zero w then some (o.div v w) else none
+  | none => none
+
+def keyLt : Option α → Option α → Bool
+  | some a, some b => o.lt a b
+  | some _, none => true
+  | none, _ => false
+
+/-- the greedy scan `if weights[i] <= remaining: selected.append(i); remaining -= weights[i]` -/
+def greedyScan (items : List (α × α)) : List Nat → α → List Nat → List Nat
+  | [], _, acc => acc.reverse
+  | i :: rest, remaining, acc =>
+    match items[i]? with
+    | some (w, _) =>
+      if o.le w remaining then greedyScan items rest (o.sub remaining w) (i :: acc)
+      else greedyScan items rest remaining acc
+    | none => greedyScan items rest remaining acc
+
+/-- `_greedy_fallback`: items are `(weight, value)` with the *original* values; stable sort by
+ratio (ascending for `minimize`, `reverse=True` – stable descending – otherwise), greedy scan,
+`selected.sort()`. -/
+def greedyFallback (items : List (α × α)) (cap : α) (minimize : Bool) : List Nat :=
+  let key := ratioKey o items
+  let order := (List.range items.length).mergeSort fun i j =>
+    if minimize then !(keyLt o (key j) (key i)) else !(keyLt o (key i) (key j))
+  (greedyScan o items order cap []).mergeSort fun i j => decide (i ≤ j)
+
+end Knap
+
+/-! ### The floating-point front end of `solve_knapsack` (repaired code, see
+`proposed_fixes/C16_*`): `_to_int_capacity`, `_scaled`, the weight re-check. -/
+
+open Solvor.Gen.Pack in
+def fMaxCapacity : Float := Float.ofInt knapMaxCapacity
+open Solvor.Gen.Pack in
+def fMaxScale : Float := Float.ofBits knapMaxScale_bits
+open Solvor.Gen.Pack in
+def fWeightTol : Float := Float.ofBits knapWeightTol_bits
+/-- the `1e-9` of `_scaled` (bit pattern of the double `1e-09`) -/
+def fScaleTol : Float := Float.ofBits 4472406533629990549
+
+/-- `int(x)` for `x ≥ 0` -/
+def fTrunc (x : Float) : Nat := x.toUInt64.toNat
+/-- `v == int(v)` -/
+def fIsInt (x : Float) : Bool := x == x.floor
+/-- Python `min(a, b)` -/
+def pyMin (a b : Float) : Float := if b < a then b else a
+
+/-- `_scaled(x, scale)`: `x * scale` as an integer and whether nothing but float noise was dropped. -/
+def fScaled (x scale : Float) : Nat × Bool :=
+  let s := x * scale
+  let nearest := Float.floor (s + 0.5)
+  if Float.abs (s - nearest) ≤ fScaleTol then (fTrunc nearest, true) else (fTrunc s, false)
+
+/-- `_to_int_capacity(capacity, weights)` -/
+def fToIntCapacity (cap : Float) (wts : List Float) : Nat × Float :=
+  if (cap :: wts.filter (fun w => 0.0 < w)).all fIsInt then (fTrunc cap, 1.0)
+  else if cap ≤ 0.0 then (0, 1.0)
+  else
+    let scale := pyMin (fMaxCapacity / cap) fMaxScale
+    ((fScaled cap scale).1, scale)
+
+structure KnapRes where
+  status : Status
+  sel : List Nat
+  fallback : Bool
+  lossless : Bool
+  intCap : Nat
+  intWeights : List Nat
+
+/-- Mirror of `solve_knapsack(values, weights, capacity, minimize=…)` on doubles.
+`Except.error` = the exception class raised. -/
+def knapMirror (vals wts : List Float) (cap : Float) (minimize : Bool) : Except String KnapRes :=
+  if vals.length = 0 then .ok ⟨.OPTIMAL, [], false, true, 0, []⟩
+  else if wts.length ≠ vals.length then .error "ValueError"
+  else if cap < 0.0 then .error "ValueError"
+  else
+    let sign : Float := if minimize then -1.0 else 1.0
+    let (intCap, scale) := fToIntCapacity cap wts
+    let sc := wts.map fun w => if 0.0 < w then
+        let r := fScaled w scale
+        (max 1 r.1, r.2 && decide (1 ≤ r.1))
+      else (0, true)
+    let lossless := (fScaled cap scale).2 && sc.all (·.2)
+    let intW := sc.map (·.1)
+    let items := intW.zip (vals.map fun v => sign * v)
+    let sel := (knapInt floatOps items intCap).1
+    let totalWeight := sel.foldl (fun acc i => acc + wts.getD i 0.0) 0.0
+    if cap + fWeightTol < totalWeight then
+      .ok ⟨.FEASIBLE, greedyFallback floatOps (wts.zip vals) cap minimize, true, lossless, intCap, intW⟩
+    else
+      .ok ⟨if lossless then .OPTIMAL else .FEASIBLE, sel, false, lossless, intCap, intW⟩
+
+/-! ### Knapsack, spec side (exact rationals): checker and definitional optimum.
+Items are `(weight, value)`. -/
+
+def selW (items : List (Rat × Rat)) (sel : List Nat) : Rat := (sel.map fun i => (items.getD i (0, 0)).1).sum
+def selV (items : List (Rat × Rat)) (sel : List Nat) : Rat := (sel.map fun i => (items.getD i (0, 0)).2).sum
+
+def nodupB : List Nat → Bool
+  | [] => true
+  | a :: l => !l.contains a && nodupB l
+
+/-- Verified checker, feasibility part: distinct indices in range, weight within capacity. -/
+def chkSel (items : List (Rat × Rat)) (cap : Rat) (sel : List Nat) : Bool :=
+  nodupB sel && sel.all (· < items.length) && decide (selW items sel ≤ cap)
+
+/-- Verified checker for an answer of `solve_knapsack`: feasible, and the reported objective
+equals the sum of the values. -/
+def chkKnapsack (items : List (Rat × Rat)) (cap : Rat) (sel : List Nat) (obj : Rat) : Bool :=
+  chkSel items cap sel && decide (selV items sel = obj)
+
+def optMax : Option Rat → Option Rat → Option Rat
+  | none, b => b
+  | a, none => a
+  | some a, some b => some (if a < b then b else a)
+
+/-- Definitional optimum: exhaustive take/skip enumeration (no pruning), items listed last item
+first.  `none` = no subset fits (only when the capacity is negative). -/
+def knapBestRev : List (Rat × Rat) → Rat → Option Rat
+  | [], c => if 0 ≤ c then some 0 else none
+  | (w, v) :: prev, c => optMax (knapBestRev prev c) ((knapBestRev prev (c - w)).map (· + v))
+
+def knapBest (items : List (Rat × Rat)) (cap : Rat) : Option Rat := knapBestRev items.reverse cap
+
+/-! ## Bin packing: `solve_bin_pack` -/
+
+section BinPack
+variable {α : Type} (o : Ops α)
+
+/-- first-fit scan: `for b, (remaining, _) in enumerate(bins): if size <= remaining: … break` -/
+def firstFit (size : α) : List α → Nat → Option Nat
+  | [], _ => none
+  | r :: rs, b => if o.le size r then some b else firstFit size rs (b + 1)
+
+/-- best-fit scan: `if size <= remaining < best_remaining` (strict, so the first of equally
+tight bins wins); `none` = `best_remaining = inf`. -/
+def bestFit (size : α) : List α → Nat → Option (Nat × α) → Option (Nat × α)
+  | [], _, best => best
+  | r :: rs, b, best =>
+    let better := o.le size r && (match best with | none => true | some (_, br) => o.lt r br)
+    bestFit size rs (b + 1) (if better then some (b, r) else best)
+
+structure PState (α : Type) where
+  bins : List α        -- remaining capacity per open bin
+  asg : List Nat       -- `assignments`
+
+/-- body of `for item_idx in indices` -/
+def place (cap : α) (useBest : Bool) (sizes : List α) (st : PState α) (i : Nat) : PState α :=
+  let size := sizes.getD i o.zero
+  if o.isZero size then
+    ⟨if st.bins.isEmpty then [cap] else st.bins, st.asg.set i 0⟩
+  else
+    let choice := if useBest then (bestFit o size st.bins 0 none).map (·.1) else firstFit o size st.bins 0
+    match choice with
+    | some b => ⟨st.bins.set b (o.sub (st.bins.getD b o.zero) size), st.asg.set i b⟩
+    | none => ⟨st.bins ++ [o.sub cap size], st.asg.set i st.bins.length⟩
+
+/-- `sorted(range(n), key=lambda i: item_sizes[i], reverse=True)` (stable) or `range(n)` -/
+def packOrder (sizes : List α) (decreasing : Bool) : List Nat :=
+  if decreasing then
+    (List.range sizes.length).mergeSort fun i j => !(o.lt (sizes.getD i o.zero) (sizes.getD j o.zero))
+  else List.range sizes.length
+
+def packRun (sizes : List α) (cap : α) (useBest decreasing : Bool) : PState α :=
+  (packOrder o sizes decreasing).foldl (place o cap useBest sizes) ⟨[], List.replicate sizes.length 0⟩
+
+structure PackRes where
+  status : Status
+  asg : List Nat
+  k : Nat
+
+/-- `solve_bin_pack` after argument parsing; `Except.error` = the exception class raised. -/
+def pack (sizes : List α) (cap : α) (useBest decreasing : Bool) : Except String PackRes :=
+  if sizes.length = 0 then .ok ⟨.OPTIMAL, [], 0⟩
+  else if o.le cap o.zero then .error "ValueError"
+  else if sizes.any (fun s => o.lt cap s || o.lt s o.zero) then .error "ValueError"
+  else
+    let st := packRun o sizes cap useBest decreasing
+    .ok ⟨if 1 < st.bins.length then .FEASIBLE else .OPTIMAL, st.asg, st.bins.length⟩
+
+end BinPack
+
+/-! ### Bin packing, spec side -/
+
+/-- exact load of bin `b` under assignment `asg` -/
+def loadOf (sizes : List Rat) (asg : List Nat) (b : Nat) : Rat :=
+  (((List.range sizes.length).filter fun i => asg.getD i 0 == b).map fun i => sizes.getD i 0).sum
+
+/-- Verified checker for an answer of `solve_bin_pack`: one bin index per item, every index below
+`k`, every bin `0..k-1` in use, every load within capacity (exact arithmetic). -/
+def chkPack (sizes : List Rat) (cap : Rat) (asg : List Nat) (k : Nat) : Bool :=
+  asg.length == sizes.length &&
+  (List.range sizes.length).all (fun i => asg.getD i 0 < k) &&
+  (List.range k).all fun b =>
+    (List.range sizes.length).any (fun i => asg.getD i 0 == b) && decide (loadOf sizes asg b ≤ cap)
+
+/-- Bounded oracle (not a theorem subject): least number of bins by exhaustive placement with
+the obvious bound, items in the given order.  `bins` = remaining capacities. -/
+def minBinsGo (cap : Rat) : List Rat → List Rat → Nat → Nat
+  | [], bins, best => min best bins.length
+  | s :: rest, bins, best =>
+    if best ≤ bins.length then best else
+    let best1 := (List.range bins.length).foldl (fun bst b =>
+      let r := bins.getD b 0
+      if s ≤ r && !(bins.take b).contains r then minBinsGo cap rest (bins.set b (r - s)) bst else bst) best
+    minBinsGo cap rest (bins ++ [cap - s]) best1
+
+def minBins (sizes : List Rat) (cap : Rat) : Nat :=
+  minBinsGo cap (sizes.mergeSort fun a b => decide (b ≤ a)) [] sizes.length
 
 end Solvor.Pack
